@@ -317,13 +317,25 @@ func (a *Act) blockIn(b *ssa.BasicBlock) *State {
 	}
 	// ---- loop header ----
 	li.preSt = st.copy()
+	for _, instr := range b.Instrs {
+		if nx, ok := instr.(*ssa.Next); ok && !nx.IsString && li.visName == "" {
+			mt := nx.Iter.(*ssa.Range).X.Type().Underlying().(*types.Map)
+			tr.fresh++
+			li.visName = fmt.Sprintf("vis_%d", tr.fresh)
+			tr.declare(fmt.Sprintf("(declare-fun %s (%s) Bool)", li.visName, a.sortOf(mt.Key())))
+			name := li.visName
+			li.visHead = func(x Term) Term { return app(name, x) }
+		}
+	}
 	a.setupLoopInvariants(li, phiEntry)
 	// inv-init
 	for _, inv := range li.invs {
 		for phi, t := range phiEntry {
 			a.phiOverride[phi] = t
 		}
+		a.visMode = "init"
 		g := inv.eval(a, st)
+		a.visMode = ""
 		for phi := range phiEntry {
 			delete(a.phiOverride, phi)
 		}
@@ -446,7 +458,9 @@ func (a *Act) backEdge(st *State, p, h *ssa.BasicBlock) {
 		a.phiOverride[phi] = a.val(phi.Edges[pi])
 	}
 	for _, inv := range li.invs {
+		a.visMode = "back"
 		g := inv.eval(a, st)
+		a.visMode = ""
 		o := a.obligeAt(st, "inv-step", li, inv, g)
 		if o != nil {
 			o.Cand = inv.cand
